@@ -204,7 +204,28 @@ pub fn child_zone(_args: &[String]) -> i32 {
     std::env::set_var("TZ", "XXX+3:30");
     std::thread::sleep(std::time::Duration::from_millis(1300));
     let d = one(&enc);
-    println!("RESULT {}", json!({"first": a, "same_thread_after_change": b, "fresh_thread_after_change": c, "after_second_change": d}));
+    // the offset changes while TZ stays the same: a daylight-saving rule whose summer time begins in three seconds
+    use chrono::{Datelike, Timelike};
+    let start = Utc::now() + chrono::Duration::seconds(3);
+    let (mut before_dst, mut after_dst) = (String::from("skipped"), String::from("skipped"));
+    if start.ordinal0() < 360 {
+        let rule = format!("AAA0BBB-1,{}/{:02}:{:02}:{:02},{}/{:02}:{:02}:{:02}", start.ordinal0(), start.hour(), start.minute(), start.second(),
+            start.ordinal0() + 2, start.hour(), start.minute(), start.second());
+        std::env::set_var("TZ", &rule);
+        std::thread::sleep(std::time::Duration::from_millis(1200)); // (chrono looks at TZ again after a second)
+        let enc2 = PatternEncoder::new("{d(%z)}|{d(%z)(local)}");
+        before_dst = one(&enc2);
+        if Utc::now() > start - chrono::Duration::milliseconds(300) {
+            // a loaded machine: the "before" reading came too late to be judged
+            before_dst = "skipped".into();
+        } else {
+            let wait = (start + chrono::Duration::milliseconds(1300)) - Utc::now();
+            std::thread::sleep(wait.to_std().unwrap_or_default());
+            after_dst = one(&enc2);
+        }
+    }
+    println!("RESULT {}", json!({"first": a, "same_thread_after_change": b, "fresh_thread_after_change": c, "after_second_change": d,
+        "before_dst_starts_tz_unchanged": before_dst, "after_dst_started_tz_unchanged": after_dst}));
     0
 }
 
@@ -291,11 +312,14 @@ fn zone_change(rep: &mut Report) {
             let v: serde_json::Value = serde_json::from_str(&line[7..]).unwrap_or_default();
             rep.case_enumerated(true);
             rep.count("zone_change_scenarios", 1);
+            let skipped = v["before_dst_starts_tz_unchanged"] == json!("skipped");
             let want = json!({"first": "+0000|+0000|+0000", "same_thread_after_change": "+0900|+0000|+0900",
-                "fresh_thread_after_change": "+0900|+0000|+0900", "after_second_change": "-0330|+0000|-0330"});
+                "fresh_thread_after_change": "+0900|+0000|+0900", "after_second_change": "-0330|+0000|-0330",
+                "before_dst_starts_tz_unchanged": if skipped { "skipped" } else { "+0000|+0000" },
+                "after_dst_started_tz_unchanged": if skipped { "skipped" } else { "+0100|+0100" }});
             if v != want {
                 rep.violation("C09:local-date-after-offset-change", json!({"pattern": "{d(%z)(local)}|{d(%z)(utc)}|{d(%z)}",
-                    "history": "TZ=UTC, encode; TZ=JST-9, 1.3 s later encode on the same and on a fresh thread; TZ=XXX+3:30, encode",
+                    "history": "TZ=UTC, encode; TZ=JST-9, 1.3 s later encode on the same and on a fresh thread; TZ=XXX+3:30, encode; TZ=<rule whose summer time starts in 3 s>, encode before and after the start",
                     "expected": want, "got": v}));
             }
         }
